@@ -242,6 +242,10 @@ func c16(c *an.Ctx) {
 		}
 	})
 
+	c.Check("R-PAIR", "error paths: child output nodes are parented on the destination of the same source (alignment of sources/destinations in the executor)", 25, func(o *an.O) {
+		ruleExecutorAlignment(c, o)
+	})
+
 	c.Check("R-TAINT", "socket envelopes: Message is SanitizeError(_), a diff.Diff result, an empty struct or nil; error envelopes always SanitizeError; WriteJSON only via writeOrClose", 8, func(o *an.O) {
 		for _, fn := range p.ModuleFuncs(func(rel string) bool { return rel == gq }) {
 			for _, l := range an.StructLits(fn, "outEnvelope") {
